@@ -90,6 +90,16 @@ impl Hook for GlobalHook {
     }
 }
 
+/// A scheduling point inside code the harness hands to the crate under test (a payload's destructor, a setter): when the calling
+/// OS thread is a logical thread of a running scenario the controller may switch threads here; otherwise (controller thread,
+/// tear-down) it is a no-op.
+pub fn yield_here(tag: &str) {
+    let lt = LT.with(|lt| lt.borrow().clone());
+    if let Some((s, t)) = lt {
+        s.yield_to_controller(t, format!("yield {tag}"), None);
+    }
+}
+
 static INSTALL: Once = Once::new();
 
 pub fn install() {
